@@ -28,6 +28,9 @@ def check(ctx):
     c07.block_keeps_server(ctx, P, views, iters)
     busy_time_accounting(ctx, P, views)
     class_change_disarmed(ctx, P, views, iters)
+    # a customer holding a server must not be taken out of the node by the renege scan (shared instance)
+    from . import c13
+    c13.renege_scan(ctx, P)
     ctx.assume("custom server_priority_function / service disciplines return an element of their argument")
 
 
@@ -185,7 +188,7 @@ def _lin(node):
 def busy_time_accounting(ctx, P, views):
     ob = ctx.ob("UTIL", "busy-time accounting: a server is busy from its customer's service start until that customer leaves (exit_date, blocked time included); total = now/horizon - start_date; utilisation = sum busy / sum total over all servers")
     def want(cls, m, node, got, terms, why):
-        lin = _lin(got) if got is not None else None
+        lin = _lin(rules.inline_locals(fn, got)) if got is not None else None       # (fn: the method being examined; temporaries are read through)
         ob.ok("%s.%s:%s" % (cls.name, m, unparse(node)[:40]), "%s.%s: %s" % (cls.name, m, unparse(node)[:90]))
         if lin is None or lin[0] != terms or lin[1] != 0:
             ctx.violation(ob, "R8.busy-time", "%s.%s" % (cls.name, m), unparse(node)[:100], "accounting-formula", why, loc(node))
